@@ -34,8 +34,22 @@ def kind_of(table, col, row):
     return "KN"
 
 
+def _payload(df, skip):
+    """one integer per row that identifies everything the row carries besides its label and reference cells
+    (all other columns, bit-exact): restructuring must move it with the row and never change it"""
+    import hashlib
+    from harness.drive import _canon
+    cols = [c for c in df.columns if c not in skip]
+    out = []
+    for vals in (df[cols].values.tolist() if cols else [[] for _ in range(len(df))]):
+        h = hashlib.sha1(repr([_canon(v) for v in vals]).encode()).hexdigest()
+        out.append(int(h[:7], 16))
+    return out
+
+
 def snapshot(net):
-    """{table: [(label, [(col, kind, value)])]} for element tables, label-only rows for geodata / res tables"""
+    """{table: [(label, [(col, kind, value)])]}: reference cells of element tables plus one '#payload' cell per row
+    (KN) in every table incl. geodata / res tables"""
     cs_all = tuple_set(net)
     snap = {}
     for t in element_tables(net):
@@ -46,13 +60,15 @@ def snapshot(net):
         rows = []
         et = df["et"].tolist() if "et" in df.columns else None
         vals = {c: df[c].tolist() for c in cols}
+        pay = _payload(df, set(cols))
         for p, lab in enumerate(df.index.tolist()):
             r = {"et": et[p]} if et is not None else {}
-            rows.append((int(lab), [(c, kind_of(t, c, r), int(vals[c][p])) for c in cols]))
+            rows.append((int(lab), [(c, kind_of(t, c, r), int(vals[c][p])) for c in cols] + [("#payload", "KN", pay[p])]))
         snap[t] = rows
     for t in list(net.keys()):
         if isinstance(net[t], pd.DataFrame) and (t.startswith("res_") or t.endswith("_geodata")) and t not in snap:
-            snap[t] = [(int(l), []) for l in net[t].index.tolist()]
+            pay = _payload(net[t], set())
+            snap[t] = [(int(l), [("#payload", "KN", pay[p])]) for p, l in enumerate(net[t].index.tolist())]
     return snap
 
 
